@@ -16,7 +16,7 @@ import ast
 import z3
 from pyvc import xreal as xr
 from pyvc.xreal import X
-from pyvc.numexec import Num, Bool, Obj, Unsupported, Path
+from pyvc.numexec import Num, Bool, Obj, Unsupported, Path, ANALYSIS
 from pyvc.heap import XR, Str, x2xr, xr2x, canon, str_distinct
 from pyvc.tokexec import TokExec, Tok, Text, PyL, Enum, rnd, U, MultiReturn
 from pyvc.solve import Obl, static, undecided
@@ -103,7 +103,7 @@ def roundtrip(run, module, cls, kinds=None, height=True, replay_cls=None, case=N
     rp = RP(f"fll-component:{replay_cls or cls}")
     try:
         junk = default_object(src, cls)       # the freshly constructed object the importer configures
-    except Unsupported as ex_:
+    except ANALYSIS as ex_:
         run.add(undecided(f"{fq}.__init__/subset", f"outside the verified subset: {ex_}", fn=fq, meta=rp)); return
     for k_, v_ in junk.items():
         before.setdefault(k_, v_)            # fields that are not constructor parameters keep their constructed value (e.g. Constant.height = 1.0)
@@ -117,7 +117,7 @@ def roundtrip(run, module, cls, kinds=None, height=True, replay_cls=None, case=N
             for k_, c_ in enumerate(mr.cases):
                 roundtrip(run, module, cls, kinds, height, replay_cls, case=c_, ctag=f"[case{k_}]")
             return
-        except Unsupported as ex_:
+        except ANALYSIS as ex_:
             run.add(undecided(f"{fq}.parameters/subset", f"outside the verified subset: {ex_}", fn=fq, meta=rp)); return
     fq = fq + ctag
     ex = TokExec(src, m_p[0], xr.Ax(), selfobj=Obj(cls, dict(before)))
@@ -185,7 +185,7 @@ def roundtrip(run, module, cls, kinds=None, height=True, replay_cls=None, case=N
                         outs3 += ex3.run(m_p[2], {"self": ex3.selfobj}, pc=list(p2.pc) + [c_])
                     except (Unsupported, MultiReturn) as ex_:
                         run.add(undecided(f"{fq}.parameters/subset.second{tag}", f"{ex_}", fn=fq, meta=rp))
-            except Unsupported as ex_:
+            except ANALYSIS as ex_:
                 run.add(undecided(f"{fq}.parameters/subset.second{tag}", f"{ex_}", fn=fq, meta=rp)); continue
             for k3, (kind3, val3, p3) in enumerate(outs3):
                 T3 = val3 if isinstance(val3, Text) else Text([val3]) if isinstance(val3, Tok) else Text([]) if val3 == "" else None
@@ -527,7 +527,7 @@ def verify_is_close(run):
     try:
         r = ex.boo(ex.ev(NPath({"a": Num(a, False, True), "b": Num(b, False, True)}, []), ast.parse("Op.is_close(a, b)").body[0].value)).b
         atol, rtol = ex.setting("atol", fn), ex.setting("rtol", fn)
-    except Unsupported as ex_:
+    except ANALYSIS as ex_:
         run.add(undecided(f"{fq}/subset", f"outside the verified subset: {ex_}", fn=fq, meta=rp)); return
     fin = z3.And(xr.fin(a), xr.fin(b))
     spec_fin = xr.le(xr.xabs(xr.sub(a, b)), xr.add(xr.const(float(atol)), xr.mul(xr.const(float(rtol)), xr.xabs(b))))
@@ -551,14 +551,14 @@ def build(run):
             continue
         try:
             roundtrip(run, "term", c, height=(c != "Constant"))
-        except Unsupported as ex_:
+        except ANALYSIS as ex_:
             run.add(undecided(f"term.{c}/subset", f"outside the verified subset: {ex_}", fn=f"term.{c}", meta=RP(f"fll-component:{c}")))
     ncomp = 6
     for c in src.subclasses("activation", "Activation"):
         kinds = {"rules": "int", "comparator": ("enum", "Threshold.Comparator", ncomp)}
         try:
             roundtrip(run, "activation", c, kinds=kinds, height=False)
-        except Unsupported as ex_:
+        except ANALYSIS as ex_:
             run.add(undecided(f"activation.{c}/subset", f"outside the verified subset: {ex_}", fn=f"activation.{c}", meta=RP(f"fll-component:{c}")))
     for c in src.subclasses("defuzzifier", "Defuzzifier"):
         if c in ("IntegralDefuzzifier", "WeightedDefuzzifier"):
@@ -566,7 +566,7 @@ def build(run):
         kinds = {"resolution": "int", "type": ("enum", "WeightedDefuzzifier.Type", 3)}
         try:
             roundtrip(run, "defuzzifier", c, kinds=kinds, height=False)
-        except Unsupported as ex_:
+        except ANALYSIS as ex_:
             run.add(undecided(f"defuzzifier.{c}/subset", f"outside the verified subset: {ex_}", fn=f"defuzzifier.{c}", meta=RP(f"fll-component:{c}")))
     verify_rule_weight(run)
     try:
